@@ -1,0 +1,15 @@
+//go:build verif
+
+// Verification hook (build tag "verif"): add-only export of the static show
+// check for the /verif harness. Nothing here is compiled without the tag.
+
+package compiler
+
+import (
+	"reflect"
+
+	"github.com/open2b/scriggo/ast"
+)
+
+// VerifCheckShow calls checkShow.
+func VerifCheckShow(t reflect.Type, ctx ast.Context) error { return checkShow(t, ctx) }
